@@ -12,7 +12,8 @@ C18_uint64_value C18_int_value C18_num_ranges C18_meminfo_first_key C18_meminfo_
 C18_strstr_first C18_hugepages_safe C18_fgets_bounds C18_cgname_cpuset_wins C18_cgname_first_match
 C18_cgname_terminates C18_cgname_kernel C18_cgname_line_forms C18_cgname_safe C18_mntpnt_standard
 C18_mntpnt_first_match C18_mntpnt_rule C18_mntpnt_buffers C18_admin_path C18_admin_replaces
-C18_allowed_compose""".split()]
+C18_allowed_compose
+C18_meminfo_kernel C18_mntpnt_kernel C18_mntpnt_terminates""".split()]
 CHECK_MODULES = ["Hw.Props.C18"]
 TRUSTED = ["(A9) glibc 2.36 getmntent_r (fgets into the 4-page buffer, forgetting the rest of an over-long line through a 1024-byte buffer, "
            "strsep on blanks, decode_name), fgets, strstr, strsep, atoi/strtol, snprintf(\"%s\") truncation are modelled in Hw/Io/LinuxCgroup.lean / LinuxNum.lean "
